@@ -42,7 +42,7 @@ func execC18Proof(in sx.V) sx.V {
 	if err != nil {
 		return sx.A("err")
 	}
-	return sx.Bytes(proof)
+	return rawBytes(proof)
 }
 
 func bitStringOf(s string) boc.BitString { return bitStringFromBits(s) }
@@ -62,7 +62,7 @@ func execC18Key(in sx.V) sx.V {
 	if err != nil {
 		return sx.A("err")
 	}
-	return sx.Bytes(proof)
+	return rawBytes(proof)
 }
 
 // ---- an independent dictionary encoder (from the TON TL-B scheme of
@@ -226,7 +226,7 @@ func c18RunOp(prover *boc.MerkleProver, root *boc.Cell, op sx.V) (out sx.V) {
 		if err != nil {
 			return sx.A("err")
 		}
-		return sx.Bytes(proof)
+		return rawBytes(proof)
 	case "prog":
 		return c18RunProg(prover, op.List[1].List)
 	case "walk", "drop":
@@ -245,10 +245,15 @@ func c18RunOp(prover *boc.MerkleProver, root *boc.Cell, op sx.V) (out sx.V) {
 		if err != nil {
 			return sx.A("err")
 		}
-		return sx.Bytes(proof)
+		return rawBytes(proof)
 	}
 	return sx.A("badop")
 }
+
+// rawBytes keeps the slice the library returned (no copy): the results of a
+// history are held by the caller until the whole history is done, so a result
+// that aliases state reused by a later call would be seen changed.
+func rawBytes(b []byte) sx.V { return sx.V{K: sx.KBytes, Bytes: b} }
 
 func execC18Multi(in sx.V) sx.V {
 	dag := dagFromSx(in.List[0])
@@ -486,6 +491,8 @@ func genC18(c *Ctx) {
 	genC18Equal(c)
 	// 8. cursor programs: walks in every order an application may write them
 	genC18Prog(c)
+	// 9. depth: combs and chains with paths of 31..33, 63..65, 255..257, ~1000 references
+	genC18Deep(c)
 }
 
 // genC18Exotic: the source given to NewMerkleProver is the body of an earlier
